@@ -10,9 +10,11 @@ import traceback
 from . import pipeline
 
 
-def run_inproc(argv, cwd):
+def run_inproc(argv, cwd, pre=()):
     """(status, stdout, stderr) of main() with sys.argv = ['json2models'] + argv, run in a forked child so
-    that the process-global string registry and registered datetime classes die with it."""
+    that the process-global string registry and registered datetime classes die with it.
+    pre: argument lists of earlier main() runs in the SAME child (their output is discarded): a long-lived process that calls
+    the command line entry point several times."""
     r, w = os.pipe()
     pid = os.fork()
     if pid == 0:
@@ -20,6 +22,16 @@ def run_inproc(argv, cwd):
         try:
             os.close(r)
             os.chdir(cwd)
+            for pre_argv in pre:
+                o0 = sys.stdout, sys.stderr, sys.argv
+                sys.stdout, sys.stderr, sys.argv = io.StringIO(), io.StringIO(), ["json2models"] + list(pre_argv)
+                try:
+                    from json_to_models.cli import main as _m
+                    _m()
+                except BaseException:
+                    pass
+                finally:
+                    sys.stdout, sys.stderr, sys.argv = o0
             so, se = io.StringIO(), io.StringIO()
             old = sys.stdout, sys.stderr, sys.argv
             sys.stdout, sys.stderr, sys.argv = so, se, ["json2models"] + list(argv)
